@@ -8,6 +8,8 @@ filter, event, name, tag map, payload and output.  Process creation, the shell, 
 exit codes are exercised by the harness, not modelled.
 -/
 import SerfProofs.Lemmas.EventScript
+import SerfModel.Model.SourceShape
+import SerfModel.Gen.EventScriptSrc
 namespace SerfProofs.C27
 open SerfModel.EventScript SerfProofs.EventScript
 
@@ -362,5 +364,225 @@ theorem C27_respond (limit : Nat) (isQuery exitOk : Bool) (out : Bytes) (ltime i
       | nil => exact absurd rfl h3.2.2
       | cons _ _ => simp
     simp [h3.1, h3.2.1, this]
+
+/-! ## the remaining hypotheses are necessary -/
+
+/-- the comma-free hypothesis of `C27_parse_user_filter` cannot be dropped: a comma ends the entry -/
+theorem C27_parse_user_filter_comma_needed :
+    parseEventFilter (userPfx ++ [97, 44, 98]) = [⟨userB, [97]⟩, ⟨[98], []⟩] := by decide
+
+/-- … nor the non-empty name of `C27_user_filter_exact`: `user:` with an empty name selects
+every user event. -/
+theorem C27_user_filter_empty_name (e : Event) :
+    (parseEventFilter userPfx).any (fun f => invoke f e) = true ↔ e.kind = .user := by
+  have hp : parseEventFilter userPfx = [⟨userB, []⟩] := by decide
+  rw [hp]
+  simp only [List.any_cons, List.any_nil, Bool.or_false, C27_runs_iff_matches, Matches]
+  constructor
+  · rintro (h | ⟨hk, _⟩)
+    · exact absurd h (by decide)
+    · exact kind_str_user e.kind hk.symm
+  · intro hk
+    right
+    refine ⟨by rw [hk]; rfl, ?_⟩
+    simp
+
+/-! ## environment -/
+
+/-- **What the script sees**: exactly `SERF_EVENT` (the event type), `SERF_SELF_NAME`,
+`SERF_SELF_ROLE` (the `role` tag, empty when absent), one `SERF_TAG_<sanitised name>` per tag
+with the tag's value unchanged, and for a user event / query its name and Lamport time —
+nothing else is added, for every node name, tag map and event. -/
+theorem C27_env_contents (selfName : Bytes) (selfTags : Tags) (san : Bytes → Bytes) (e : Event) :
+    envOf selfName selfTags san e =
+      [(b "SERF_EVENT", e.kind.str), (b "SERF_SELF_NAME", selfName), (b "SERF_SELF_ROLE", lookupB selfTags roleB)]
+      ++ selfTags.map (fun p => (b "SERF_TAG_" ++ san p.1, p.2))
+      ++ (match e with
+          | .member .. => []
+          | .user n lt _ => [(b "SERF_USER_EVENT", n), (b "SERF_USER_LTIME", decB lt)]
+          | .query n lt _ => [(b "SERF_QUERY_NAME", n), (b "SERF_QUERY_LTIME", decB lt)]) := rfl
+
+theorem C27_env_size (selfName : Bytes) (selfTags : Tags) (san : Bytes → Bytes) (e : Event) :
+    (envOf selfName selfTags san e).length = 3 + selfTags.length + (if e.name?.isSome then 2 else 0) := by
+  cases e <;> simp [envOf, Event.name?] <;> omega
+
+/-- every tag of the node is visible, with its value unchanged, under its sanitised name -/
+theorem C27_env_tag (selfName : Bytes) (selfTags : Tags) (san : Bytes → Bytes) (e : Event) (k v : Bytes)
+    (h : (k, v) ∈ selfTags) : (b "SERF_TAG_" ++ san k, v) ∈ envOf selfName selfTags san e := by
+  unfold envOf
+  apply List.mem_append_left
+  apply List.mem_append_right
+  exact List.mem_map.mpr ⟨(k, v), h, rfl⟩
+
+example : ((([114], [119]) : Bytes × Bytes)) ∈ ([([114], [119])] : Tags) := by decide
+
+/-! ## the member line, field by field -/
+
+theorem splitOn_append_sep (sep : UInt8) (a rest : Bytes) (h : sep ∉ a) :
+    splitOn sep (a ++ sep :: rest) = a :: splitOn sep rest := by
+  induction a with
+  | nil => simp [splitOn]
+  | cons c tl ih =>
+    simp only [List.mem_cons, not_or] at h
+    have hc : (c == sep) = false := by
+      have : c ≠ sep := fun e => h.1 e.symm
+      simpa using this
+    simp only [List.cons_append, splitOn, hc, Bool.false_eq_true, ↓reduceIte, ih h.2]
+
+/-- **The four fields of a member line are exactly** the escaped name, the address, the escaped
+role and the escaped `name=value,…` list (followed by the newline). -/
+theorem C27_member_line_fields (m : Member) (haddr : TAB ∉ m.addr ∧ NL ∉ m.addr) :
+    splitOn TAB (memberLine m) =
+      [eventClean m.name, m.addr, eventClean (lookupB m.tags roleB), eventClean (tagPairs m.tags) ++ [NL]] := by
+  unfold memberLine
+  have h4 : TAB ∉ eventClean (tagPairs m.tags) ++ [NL] := by
+    intro hm
+    rcases List.mem_append.mp hm with hm | hm
+    · exact (not_mem_eventClean _).1 hm
+    · simp [TAB, NL] at hm
+  simp only [List.append_assoc, List.cons_append]
+  rw [splitOn_append_sep TAB _ _ (not_mem_eventClean _).1, splitOn_append_sep TAB _ _ haddr.1,
+    splitOn_append_sep TAB _ _ (not_mem_eventClean _).1, splitOn_of_not_mem TAB _ h4]
+
+/-- the escaping is not reversible: a tab and the two characters `\t` give the same field
+(the documentation promises escaping, not a decodable encoding) -/
+theorem C27_eventClean_not_injective : eventClean [9] = eventClean [92, 116] := by decide
+
+/-! ## member addresses: the hypothesis of `C27_member_line` discharged for IPv4 and nil -/
+
+theorem digit_clean (n : Nat) : digit n ≠ TAB ∧ digit n ≠ NL := by
+  have h : ∀ k : Fin 10, UInt8.ofNat (48 + k.val) ≠ TAB ∧ UInt8.ofNat (48 + k.val) ≠ NL := by decide
+  exact h ⟨n % 10, Nat.mod_lt _ (by decide)⟩
+
+theorem octet_clean (n : Nat) : TAB ∉ octet n ∧ NL ∉ octet n := by
+  unfold octet
+  have d := digit_clean
+  split
+  · simp only [List.mem_singleton]; exact ⟨fun e => (d n).1 e.symm, fun e => (d n).2 e.symm⟩
+  · split
+    · simp only [List.mem_cons, List.not_mem_nil, or_false, not_or]
+      exact ⟨⟨fun e => (d _).1 e.symm, fun e => (d _).1 e.symm⟩, ⟨fun e => (d _).2 e.symm, fun e => (d _).2 e.symm⟩⟩
+    · simp only [List.mem_cons, List.not_mem_nil, or_false, not_or]
+      exact ⟨⟨fun e => (d _).1 e.symm, fun e => (d _).1 e.symm, fun e => (d _).1 e.symm⟩,
+        ⟨fun e => (d _).2 e.symm, fun e => (d _).2 e.symm, fun e => (d _).2 e.symm⟩⟩
+
+/-- the dotted-decimal text of an IPv4 address and the text of the nil address contain neither
+a tab nor a newline -/
+theorem C27_addr_clean (a c d e : Nat) :
+    (TAB ∉ ipv4 a c d e ∧ NL ∉ ipv4 a c d e) ∧ (TAB ∉ nilAddr ∧ NL ∉ nilAddr) := by
+  refine ⟨?_, by decide⟩
+  unfold ipv4
+  have o := octet_clean
+  have hd : DOT ≠ TAB ∧ DOT ≠ NL := by decide
+  simp only [List.mem_append, List.mem_cons, not_or]
+  exact ⟨⟨⟨⟨(o a).1, fun h => hd.1 h.symm, (o c).1⟩, fun h => hd.1 h.symm, (o d).1⟩, fun h => hd.1 h.symm, (o e).1⟩,
+    ⟨⟨⟨(o a).2, fun h => hd.2 h.symm, (o c).2⟩, fun h => hd.2 h.symm, (o d).2⟩, fun h => hd.2 h.symm, (o e).2⟩⟩
+
+/-- **`C27_member_line` without a hypothesis**, for every member with an IPv4 or nil address:
+four tab-separated fields, one newline, at the end — whatever name, role and tags contain. -/
+theorem C27_member_line_ipv4 (name : Bytes) (tags : Tags) (a c d e : Nat) :
+    (splitOn TAB (memberLine ⟨name, ipv4 a c d e, tags⟩)).length = 4 ∧
+    (memberLine ⟨name, ipv4 a c d e, tags⟩).count NL = 1 ∧
+    (memberLine ⟨name, ipv4 a c d e, tags⟩).getLast? = some NL ∧
+    (splitOn TAB (memberLine ⟨name, nilAddr, tags⟩)).length = 4 ∧
+    (memberLine ⟨name, nilAddr, tags⟩).count NL = 1 :=
+  have h1 := C27_member_line ⟨name, ipv4 a c d e, tags⟩ (C27_addr_clean a c d e).1
+  have h2 := C27_member_line ⟨name, nilAddr, tags⟩ (C27_addr_clean a c d e).2
+  ⟨h1.1, h1.2.1, h1.2.2, h2.1, h2.2.1⟩
+
+example : ipv4 10 0 200 7 = [49, 48, 46, 48, 46, 50, 48, 48, 46, 55] := by decide
+
+/-! ## the decisive shapes and constants of the source (regenerated on every run)
+
+`SerfModel.Gen.EventScriptSrc`: statement skeletons of the event-handler functions and, byte
+for byte, the constants and literals in them.  Each obligation names the model definition it
+justifies. -/
+
+open SerfModel.SourceShape
+section Src
+open SerfModel.Gen
+
+set_option maxRecDepth 8000 in
+/-- `maxBufSize`, the buffer is created with it and collects both stdout and stderr (`last8k`) -/
+theorem C27_src_output_buffer :
+    EventScriptSrc.maxBufSize = SerfModel.EventScript.maxBufSize ∧
+    once "output, _ := circbuf.NewBuffer(maxBufSize)" EventScriptSrc.invokeEventScript = true ∧
+    once "cmd.Stderr = output" EventScriptSrc.invokeEventScript = true ∧ once "cmd.Stdout = output" EventScriptSrc.invokeEventScript = true := by decide
+
+set_option maxRecDepth 8000 in
+/-- the response gate (`respond`): after `cmd.Wait()` an error returns before the response; a
+response is attempted only for a query with output, with the buffer's content; and the
+default limit is `responseLimit` -/
+theorem C27_src_response_gate :
+    hasBlock ["err = cmd.Wait()", "slowTimer.Stop()", "if err != nil {", "return err", "}",
+      "if query, ok := event.(*serf.Query); ok && output.TotalWritten() > 0 {",
+      "if err := query.Respond(output.Bytes()); err != nil {", "}", "}", "return nil"] EventScriptSrc.invokeEventScript = true ∧
+    EventScriptSrc.defaultResponseLimit = responseLimit := by decide
+
+set_option maxRecDepth 8000 in
+/-- the environment (`envOf`): the SERF_* literals in order, the tag loop with upper-casing and
+the replacement regexp (`sanitizeChars`), name and Lamport time per event kind -/
+theorem C27_src_environment :
+    EventScriptSrc.envLiterals = ["SERF_EVENT=", "SERF_SELF_NAME=", "SERF_SELF_ROLE=", "SERF_TAG_%s=%s", "SERF_USER_EVENT=",
+      "SERF_USER_LTIME=%d", "SERF_QUERY_NAME=", "SERF_QUERY_LTIME=%d"] ∧
+    EventScriptSrc.sanitizeRegexp = "[^A-Z0-9_]" ∧
+    once "cmd.Env = append(os.Environ(), \"SERF_EVENT=\"+event.EventType().String(), \"SERF_SELF_NAME=\"+self.Name, \"SERF_SELF_ROLE=\"+self.Tags[\"role\"], )" EventScriptSrc.invokeEventScript = true ∧
+    hasBlock ["for name, val := range self.Tags {",
+      "sanitizedName := sanitizeTagRegexp.ReplaceAllString(strings.ToUpper(name), \"_\")",
+      "tag_env := fmt.Sprintf(\"SERF_TAG_%s=%s\", sanitizedName, val)", "cmd.Env = append(cmd.Env, tag_env)", "}"] EventScriptSrc.invokeEventScript = true ∧
+    hasBlock ["switch e := event.(type) {", "case serf.MemberEvent:", "go memberEventStdin(logger, stdin, &e)",
+      "case serf.UserEvent:", "cmd.Env = append(cmd.Env, \"SERF_USER_EVENT=\"+e.Name)",
+      "cmd.Env = append(cmd.Env, fmt.Sprintf(\"SERF_USER_LTIME=%d\", e.LTime))", "go streamPayload(logger, stdin, e.Payload)",
+      "case *serf.Query:", "cmd.Env = append(cmd.Env, \"SERF_QUERY_NAME=\"+e.Name)",
+      "cmd.Env = append(cmd.Env, fmt.Sprintf(\"SERF_QUERY_LTIME=%d\", e.LTime))", "go streamPayload(logger, stdin, e.Payload)",
+      "default:"] EventScriptSrc.invokeEventScript = true := by decide
+
+set_option maxRecDepth 8000 in
+/-- standard input of a member event (`EventScriptSrc.eventClean`, `tagPairs`, `memberLine`): the replacement
+pairs, the formats, and the one statement that writes a line — name, role and the JOINED tag
+list go through `EventScriptSrc.eventClean` (seeded C27-a moved the escaping to the tag values) -/
+theorem C27_src_member_stdin :
+    EventScriptSrc.cleanPairs = [([TAB], [BSL, 116]), ([NL], [BSL, 110])] ∧
+    EventScriptSrc.eventClean = ["v = strings.ReplaceAll(v, \"\\t\", \"\\\\t\")", "v = strings.ReplaceAll(v, \"\\n\", \"\\\\n\")", "return v"] ∧
+    EventScriptSrc.memberFormats = [[37, 115, EQ, 37, 115], [37, 115, TAB, 37, 115, TAB, 37, 115, TAB, 37, 115, NL], [COMMA]] ∧
+    EventScriptSrc.memberEventStdin = ["defer stdin.Close()", "for _, member := range e.Members {", "var tagPairs []string",
+      "for name, value := range member.Tags {", "tagPairs = append(tagPairs, fmt.Sprintf(\"%s=%s\", name, value))", "}",
+      "tags := strings.Join(tagPairs, \",\")",
+      "_, err := stdin.Write(fmt.Appendf(nil, \"%s\\t%s\\t%s\\t%s\\n\", eventClean(member.Name), member.Addr.String(), eventClean(member.Tags[\"role\"]), eventClean(tags)))",
+      "if err != nil {", "return", "}", "}"] := by decide
+
+set_option maxRecDepth 8000 in
+/-- standard input of a user event / query (`payloadStdin`) -/
+theorem C27_src_payload_stdin :
+    EventScriptSrc.payloadChars = [[NL], [NL]] ∧
+    EventScriptSrc.streamPayload = ["defer stdin.Close()", "payload := buf", "if len(payload) > 0 && payload[len(payload)-1] != '\\n' {",
+      "payload = append(payload, '\\n')", "}", "if _, err := stdin.Write(payload); err != nil {", "return", "}"] := by decide
+
+set_option maxRecDepth 8000 in
+/-- parsing (`EventScriptSrc.parseEventScript`, `EventScriptSrc.parseEventFilter`, `parseEntry`): split at the first `=`, the
+empty filter is `*`, entries separated by commas, the name is the rest after the PREFIX
+(seeded C27-b cut it at the next colon) -/
+theorem C27_src_parsing :
+    EventScriptSrc.filterPrefixes = [userPfx, queryPfx] ∧ EventScriptSrc.separators = [[COMMA], [EQ, 35, 50]] ∧
+    once "parts := strings.SplitN(v, \"=\", 2)" EventScriptSrc.parseEventScript = true ∧
+    once "filters := ParseEventFilter(filter)" EventScriptSrc.parseEventScript = true ∧
+    EventScriptSrc.parseEventFilter = ["if v == \"\" {", "v = \"*\"", "}", "events := strings.Split(v, \",\")",
+      "results := make([]EventFilter, 0, len(events))", "for _, event := range events {", "var result EventFilter",
+      "var name string", "if strings.HasPrefix(event, \"user:\") {", "name = event[len(\"user:\"):]", "event = \"user\"",
+      "} else if strings.HasPrefix(event, \"query:\") {", "name = event[len(\"query:\"):]", "event = \"query\"", "}",
+      "result.Event = event", "result.Name = name", "results = append(results, result)", "}", "return results"] := by decide
+
+set_option maxRecDepth 8000 in
+/-- matching and dispatch (`EventScriptSrc.invoke`, `runsOf`) -/
+theorem C27_src_matching :
+    EventScriptSrc.invoke = ["if s.Event == \"*\" {", "return true", "}", "if e.EventType().String() != s.Event {", "return false", "}",
+      "if s.Event == \"user\" && s.Name != \"\" {", "userE, ok := e.(serf.UserEvent)", "if !ok {", "return false", "}",
+      "if userE.Name != s.Name {", "return false", "}", "}",
+      "if s.Event == \"query\" && s.Name != \"\" {", "query, ok := e.(*serf.Query)", "if !ok {", "return false", "}",
+      "if query.Name != s.Name {", "return false", "}", "}", "return true"] ∧
+    hasBlock ["for _, script := range h.Scripts {", "if !script.Invoke(e) {", "continue", "}",
+      "err := invokeEventScript(h.Logger, script.Script, self, e)"] EventScriptSrc.handleEvent = true := by decide
+
+end Src
 
 end SerfProofs.C27
